@@ -259,20 +259,27 @@ SELFSPEC = {"Trace_Hybrid": selfspec_events}
 
 MANIFEST = dict(
     category="model_checking",
-    text=("Every recorded Encrypt/Decrypt call of the real hybrid-encryption code (about 19k quick events over all 63 HPKE suites "
-          "incl. ML-KEM-768/1024 and X-Wing, all 225 ECIES curve x hash x point-format x DEM combinations, every prefix variant, "
-          "key ids incl. 0 and 0xffffffff, keyset-factory / key-template / hybrid-subtle routes) is judged by TLC against an "
-          "executable TLA+ transcription of RFC 9180 base mode (labeled extract/expand, DHKEM, key schedule, nonce XOR, single-shot "
-          "seal/open), the X-Wing combiner and ECIES-AEAD-HKDF (RFC 5869 HKDF, SEC 1 point formats, AES-GCM / AES-CTR-HMAC / "
-          "AES-SIV DEMs). Tink's ciphertexts are decrypted by the reference with the recipient key; reference-made ciphertexts "
-          "(built by TLC with chosen ephemeral keys) are decrypted by Tink; mutations of prefix, encapsulated key, payload, "
-          "context, the private key and every cut point must be rejected by both. Conformance, not a proof: the quantifiers over "
-          "plaintexts, contexts and mutations are covered by classes and enumerated positions."),
-    note=("Trusted: JDK ECDH/XDH/HMAC/SHA-3/AES/GCM/ChaCha20-Poly1305 providers, TLC, the TLA+ transcriptions (gated by the RFC "
-          "5869 and RFC 9180 A.1.1/A.2.1/A.3.1/A.6.1 vectors in spec/selftest/Self_HPKE.tla and RFC 5297 / X-Wing checks in "
-          "Self_ECIES.tla). ML-KEM decapsulation is an assumed primitive taken from Go's crypto/mlkem, so for the ML-KEM and "
-          "X-Wing suites the check covers what Tink wrote around ML-KEM, not ML-KEM. ECIES over X25519 and the XChaCha20-Poly1305 "
-          "DEM are refused by the library at construction and are recorded as coverage only."),
-    technique="TLA+ reference specs (RFC 9180, X-Wing, ECIES/HKDF) + TLC trace validation both ways (Tink->spec, spec->Tink), negative control",
+    text=("Every recorded Encrypt/Decrypt call of the real hybrid-encryption code (about 20k events quick, 420k thorough: all 63 HPKE "
+          "suites incl. ML-KEM-768/1024 and X-Wing, all 225 ECIES curve x hash x point-format x DEM combinations, every prefix "
+          "variant, key ids incl. 0 and 0xffffffff, boundary private keys, keyset-factory / key-template / hybrid-subtle routes) is "
+          "judged by TLC against an executable TLA+ transcription of RFC 9180 base mode (labeled extract/expand, DHKEM, key "
+          "schedule, nonce XOR, single-shot seal/open), the X-Wing combiner and ECIES-AEAD-HKDF (RFC 5869 HKDF, SEC 1 point "
+          "formats, AES-GCM / AES-CTR-HMAC / AES-SIV DEMs). Tink's ciphertexts are decrypted by the reference with the recipient "
+          "key; reference-made ciphertexts (built by TLC in Plan_Hybrid with chosen ephemeral keys and IVs) are decrypted by Tink; "
+          "mutations of prefix, encapsulated key (bit flips, off-curve, small-order, negated, wrong leading byte), payload, tag, "
+          "context, the private key, every cut point and extensions must be rejected by both (thorough: every byte position and "
+          "cut point of one ciphertext per configuration, every bit for a ninth of them, every plaintext length 0..48). "
+          "Conformance, not a proof: the quantifiers over plaintexts, contexts, keys and mutations are covered by classes and "
+          "enumerated positions."),
+    note=("Trusted: JDK ECDH/XDH/HMAC/SHA-3/AES/GCM/ChaCha20-Poly1305 providers, TLC, the TLA+ transcriptions (gated by RFC 5869 "
+          "A.1-A.4 and RFC 9180 A.1.1/A.2.1/A.3.1/A.6.1 with every listed intermediate value in spec/selftest/Self_HPKE.tla, "
+          "structural checks in Self_ECIES.tla, and 26 ciphertexts of Tink C++ embedded in the repository's tests - HPKE incl. "
+          "X-Wing and ML-KEM, ECIES all DEMs - pushed through the same trace spec by bin/selfspec). ML-KEM decapsulation is an "
+          "assumed primitive taken from Go's crypto/mlkem, so for the ML-KEM and X-Wing suites the check covers what Tink wrote "
+          "around ML-KEM (framing, seed expansion, combiner, key schedule), not ML-KEM. Not covered: HPKE sequence numbers > 0 "
+          "(Tink seals once per context, so the nonce XOR alignment is unobservable through the public API), ECIES over P-224 "
+          "(hybrid/subtle only; not in the JDK), ECIES over X25519 and the XChaCha20-Poly1305 DEM (refused by the library at "
+          "construction, recorded as coverage), keysets with several keys (C05)."),
+    technique="TLA+ reference specs (RFC 9180, X-Wing, ECIES/HKDF) + TLC trace validation both ways (Tink->spec, spec->Tink via a TLC-built plan), negative control",
     design_ref="DESIGN.md section 6, C06",
 )
